@@ -33,8 +33,9 @@ PROVED = {
     'BlockCreateStats': ('block', 'BlockCreateStats', 'c16_src_BlockCreateStats', 'blk'),
     'ConfigParams': ('block', 'ConfigParams', 'c16_src_ConfigParams', 'blk'),
     'McStateExtra': ('block', 'McStateExtra', 'c16_src_McStateExtra', 'blk'),
+    'ShardStateUnsplit': ('block', 'ShardStateUnsplit', 'c16_src_ShardStateUnsplit', 'blk'),
 }
-N_VALIDATE = {'BlockInfo': 16, 'ConsensusConfig': 12, 'McStateExtra': 8}
+N_VALIDATE = {'BlockInfo': 16, 'ConsensusConfig': 12, 'McStateExtra': 8, 'ShardStateUnsplit': 8}
 
 
 def label(cls):
